@@ -64,12 +64,22 @@ def main():
         return 0
     old = json.load(open(TABLE))
     diffs = []
-    for k in sorted(set(old) | set(t)):
-        a, b = old.get(k, {}), t.get(k, {})
-        # only NEW sites matter (a removed site cannot introduce a panic)
-        more = {x: (a.get(x, 0), b[x]) for x in b if b[x] > a.get(x, 0)}
-        if more:
-            diffs.append("%s: new panic sites %s" % (k, more))
+
+    def per_file(tab):
+        # code moved between functions of one file (a harmless refactoring) must not alarm:
+        # compare the number of sites of each kind per source file; only an INCREASE matters
+        # (a removed site cannot introduce a panic)
+        agg = {}
+        for k, d in tab.items():
+            f = k.split("::")[0]
+            for kind, n in d.items():
+                agg[(f, kind)] = agg.get((f, kind), 0) + n
+        return agg
+    a, b = per_file(old), per_file(t)
+    for key in sorted(b):
+        if b[key] > a.get(key, 0):
+            funcs = [k for k in t if k.startswith(key[0] + "::") and t[k].get(key[1], 0) > old.get(k, {}).get(key[1], 0)]
+            diffs.append("%s: %d -> %d '%s' sites (functions: %s)" % (key[0], a.get(key, 0), b[key], key[1], ", ".join(funcs)))
     print(json.dumps({"functions": len(t), "sites": sum(sum(v.values()) for v in t.values()), "differences": diffs}))
     return 1 if diffs else 0
 
